@@ -37,6 +37,12 @@ static Verdict run_c07(const Case &c)
   {
     uint32_t pat = (uint32_t)c.geti("pat");
     got = entry == "synth" ? wapi::hash_synth(alg, len, pat) : wapi::hash_string_synth(alg, len, pat);
+    if (got.empty())
+    {
+      v.nontrivial = false;
+      v.classes.push_back("skipped_not_enough_memory");
+      return v;
+    }
     want = ref_synth(alg, len, pat);
   }
   else
@@ -44,7 +50,15 @@ static Verdict run_c07(const Case &c)
     bytes m = expand((uint64_t)strtoull(c.get("pseed", "0").c_str(), NULL, 10), (size_t)len, (int)c.geti("pstyle"));
     if (entry == "string")
     {
-      got = wapi::hash_string(alg, m);
+      if (c.geti("reuse"))
+      {
+        // a hasher object that already digested another message (as FileHeader::getIV and hmac::getres reuse theirs)
+        bytes decoy = expand(len * 7 + 3, (size_t)c.geti("decoylen"), 0);
+        got = wapi::hash_string_reuse(alg, decoy, m);
+        v.classes.push_back("reused_hasher_object");
+      }
+      else
+        got = wapi::hash_string(alg, m);
       want = ref::hash(alg, m);
     }
     else
@@ -120,6 +134,11 @@ static Case gen_c07()
     len = k < 5 ? (uint64_t)g::range(0, 700) : k < 9 ? (uint64_t)g::range(0, 8192) : (uint64_t)g::range(0, 65537);
   }
   c.set("len", std::to_string(len));
+  if (!file && g::coin(30))
+  {
+    c.seti("reuse", 1);
+    c.seti("decoylen", g::oneof<long>({0, 1, 55, 56, 63, 64, 65, 119, 120, 200}));
+  }
   c.set("pseed", std::to_string(g::u64()));
   c.seti("pstyle", g::range(0, 10) < 8 ? 0 : g::range(1, 4));
   return c;
